@@ -33,7 +33,7 @@ pub fn acks(trace: &[Value]) -> Vec<Value> {
                 if ev == "Accept" {
                     // the datagram that created the connection was handed to the endpoint, not to it
                     if let Some(pks) = pending_new.remove(&e["n"].as_i64().unwrap_or(-1)) {
-                        out.push(json!({"ev":"Rcv","uid":e["uid"],"t":t,"pks":pks,"all":false,"est":false,"keys":false}));
+                        out.push(json!({"ev":"Rcv","uid":e["uid"],"t":t,"pks":pks,"all":false,"est":false,"keys":false,"af":[],"immf":false}));
                     }
                 }
             }
@@ -44,12 +44,31 @@ pub fn acks(trace: &[Value]) -> Vec<Value> {
                 let uid = e["uid"].as_i64().unwrap_or(-1);
                 let pks = packets(e);
                 let authed = e["post"]["authed"].as_i64().unwrap_or(0) - e["pre"]["authed"].as_i64().unwrap_or(0);
+                // ACK_FREQUENCY requests ([sequence, threshold, max_ack_delay us, reordering threshold]) and
+                // IMMEDIATE_ACK frames among the 1-RTT packets of the datagram
+                let mut af: Vec<Value> = Vec::new();
+                let mut immf = false;
+                for p in e["pk"].as_array().cloned().unwrap_or_default() {
+                    if p["ty"] != "S" {
+                        continue;
+                    }
+                    for f in p["fr"].as_array().cloned().unwrap_or_default() {
+                        if f["f"] == "ACK_FREQUENCY" {
+                            af.push(json!([f["seq"].as_i64().unwrap_or(0).min(1 << 30), f["th"].as_i64().unwrap_or(0).min(1 << 30),
+                                f["mad"].as_i64().unwrap_or(0).min(1 << 30), f["ro"].as_i64().unwrap_or(0).min(1 << 30)]));
+                        }
+                        if f["f"] == "IMMEDIATE_ACK" {
+                            immf = true;
+                        }
+                    }
+                }
                 out.push(json!({"ev":"Rcv","uid":uid,"t":t,"pks":pks,"all":authed as usize >= pks.len() && !pks.is_empty(),
-                    "est":e["post"]["st"] == 1,"keys":e["pre"]["sp"][2]["keys"] == true}));
+                    "est":e["post"]["st"] == 1,"keys":e["pre"]["sp"][2]["keys"] == true,"af":af,"immf":immf}));
             }
             "Tx" => {
                 let uid = e["uid"].as_i64().unwrap_or(-1);
                 let mut fr: Vec<Value> = Vec::new();
+                let mut afs: Vec<Value> = Vec::new();
                 // a transmission made only of packets that carry nothing but ACK (and padding)
                 let mut ackonly = true;
                 let mut npk = 0;
@@ -60,6 +79,9 @@ pub fn acks(trace: &[Value]) -> Vec<Value> {
                             ackonly = false;
                         }
                         for f in p["fr"].as_array().cloned().unwrap_or_default() {
+                            if f["f"] == "ACK_FREQUENCY" {
+                                afs.push(json!(f["seq"].as_i64().unwrap_or(0).min(1 << 30)));
+                            }
                             if f["f"] == "ACK" {
                                 let ranges: Vec<Value> = f["ranges"].as_array().cloned().unwrap_or_default().iter()
                                     .map(|r| json!([r[0].as_i64().unwrap_or(0).min(1 << 30), r[1].as_i64().unwrap_or(0).min(1 << 30)])).collect();
@@ -68,7 +90,7 @@ pub fn acks(trace: &[Value]) -> Vec<Value> {
                         }
                     }
                 }
-                out.push(json!({"ev":"Snd","uid":uid,"t":t,"acks":fr,"est":e["post"]["st"] == 1,"ackonly":ackonly && npk > 0}));
+                out.push(json!({"ev":"Snd","uid":uid,"t":t,"acks":fr,"est":e["post"]["st"] == 1,"ackonly":ackonly && npk > 0,"afs":afs}));
             }
             "Timeout" | "Call" => {
                 // time passes for the connection: overdue acknowledgements are judged here as well
